@@ -42,6 +42,14 @@ LAYOUTS = {
     "src-sign-then-enc": [[("sp", [("spsso", [(S, ["sp"])])])], [("sp", [("spsso", [(E_, ["sp"])])])]],
     "src-enc-then-sign": [[("sp", [("spsso", [(E_, ["sp2"])])])], [("sp", [("spsso", [(S, ["sp"])])])]],
     "src-dup-entity": [[("x", [("spsso", [(E_, ["sp2"])])]), ("sp", [("spsso", [(U, ["sp2"])])]), ("sp", [("spsso", [(E_, ["sp"])])])]],
+    # (c) key descriptors WITHOUT X509Data (certificate list []: a KeyName / KeyValue only).  MetaData.certs skips them
+    # (proposed_fix/C03-1); before that repair certs(sp, any, encryption) raised KeyError and no response was built
+    "keyname+enc": [[("sp", [("spsso", [(E_, []), (E_, ["sp"])])])]],
+    "enc+useless-keyname": [[("sp", [("spsso", [(E_, ["sp"]), (U, [])])])]],
+    "keyname-otherrole": [[("sp", [("spsso", [(S, ["sp2"]), (E_, ["sp"])]), ("pdp", [(E_, [])])])]],
+    "enc-keyname-only": [[("sp", [("spsso", [(S, ["sp"]), (E_, [])])])]],
+    "sign-keyname+enc": [[("sp", [("spsso", [(S, []), (E_, ["sp"])])])]],
+    "keyname-garbage-sp": [[("sp", [("spsso", [(U, []), (E_, [None]), (E_, []), (U, ["sp"])])])]],
 }
 
 
@@ -52,7 +60,7 @@ def random_layout(rng):
     def kds():
         out = []
         for _ in range(rng.choice([0, 1, 1, 2, 2, 3])):
-            out.append((rng.choice([U, U, S, S, E_]), [rng.choice(certs) for _ in range(rng.choice([1, 1, 1, 2]))]))
+            out.append((rng.choice([U, U, S, S, E_]), [rng.choice(certs) for _ in range(rng.choice([1, 1, 1, 2, 0]))]))
         return out
 
     def roles():
@@ -85,6 +93,11 @@ def entity_id(layout_name, who):
 # ---------------------------------------------------------------------------------------------------------
 def _kd(use, certs):
     xs = [ds.X509Data(x509_certificate=ds.X509Certificate(text=GARBAGE_CERT if c is None else env.cert_b64(c))) for c in certs]
+    if not xs:      # no X509Data at all: a KeyName (use given) or an RSA KeyValue (no use attribute)
+        if use is None:
+            return md.KeyDescriptor(use=use, key_info=ds.KeyInfo(key_value=[ds.KeyValue(rsa_key_value=ds.RSAKeyValue(
+                modulus=ds.Modulus(text="AQAB"), exponent=ds.Exponent(text="AQAB")))]))
+        return md.KeyDescriptor(use=use, key_info=ds.KeyInfo(key_name=[ds.KeyName(text="some-key")]))
     return md.KeyDescriptor(use=use, key_info=ds.KeyInfo(x509_data=xs))
 
 
